@@ -103,11 +103,16 @@ class ParseFlow(Section):
 
 @ParseFlow.register_command('route', ActionTarget.ROUTE, ActionOperation.EXTEND)
 def route(tokeniser: Any) -> list[Route]:
+    from exabgp.protocol.family import AFI
     from exabgp.protocol.ip import IP
 
     flow_nlri = Flow.make_flow()
     attributes = AttributeCollection()
     nexthop: IP = IP.NoNextHop  # Track nexthop separately
+
+    # every rule starts with no address family (the block form resets it in ParseFlowRoute.pre): left from the
+    # previous command, an IPv4 `route protocol tcp destination 10.0.0.0/8 ...` was refused after an IPv6 rule
+    tokeniser.afi = AFI.undefined
 
     while True:
         command: str = tokeniser()
